@@ -6,6 +6,7 @@ package main
 
 import (
 	"math"
+	"sync"
 
 	"github.com/aldas/go-modbus-client/packet"
 )
@@ -16,6 +17,7 @@ func init() {
 	streams["regorders"] = streamRegOrders
 	streams["regstr"] = streamRegStr
 	streams["regseq"] = streamRegSeq
+	streams["regpar"] = streamRegPar
 }
 
 // a slice with len(vis) visible bytes and the bytes of spare behind them, inside the capacity
@@ -515,6 +517,65 @@ func streamRegStr(seed uint64, thorough bool) {
 
 // streamRegSeq: C13 -- random sequences of 1..30 calls on ONE Registers object; every result is
 // compared with the same call on a fresh copy of the payload; the buffer is compared at the end
+// one random call sequence on one window (shared by the sequential and the concurrent stream)
+func genRegSeqCase(r *rng, rot *regRotor) ([]byte, []byte, int, int, []regCall) {
+	count := 1 + r.intn(12)
+	if r.intn(6) == 0 {
+		count = 1 + r.intn(125)
+	}
+	start := 0
+	switch r.intn(4) {
+	case 0:
+		start = r.intn(3)
+	case 1:
+		start = 65536 - count - r.intn(3)
+	default:
+		start = r.intn(65536 - count + 1)
+	}
+	vis := regPayload(r, count)
+	spare, _ := regJunk(r)
+	if r.intn(3) == 0 {
+		spare = nil
+	}
+	dflt := rot.dflt()
+	ncalls := 1 + r.intn(30)
+	calls := make([]regCall, ncalls)
+	for k := range calls {
+		addr := start + r.intn(count) // mostly inside: reads that overlap and repeat
+		switch r.intn(10) {
+		case 0:
+			addr = start - 1 - r.intn(3)
+		case 1:
+			addr = start + count - 1 + r.intn(4)
+		}
+		if addr < 0 {
+			addr = 0
+		}
+		if addr > 65535 {
+			addr = 65535
+		}
+		c := rot.next(uint16(addr))
+		if (c.code == 19 || c.code == 20) && r.intn(4) != 0 {
+			// strings that fit, so that the byte swapping path is taken
+			room := 2 * (start + count - addr)
+			if room > 0 {
+				c.p1 = 1 + r.intn(room)
+				if c.p1 > 255 {
+					c.p1 = 255
+				}
+			}
+			if c.code == 20 && r.bool() {
+				c.p2 = 1 + 2*r.intn(8) // some order with BigEndian set
+			}
+		}
+		if k > 0 && r.intn(5) == 0 {
+			c = calls[r.intn(k)] // repeat an earlier call
+		}
+		calls[k] = c
+	}
+	return vis, spare, start, dflt, calls
+}
+
 func streamRegSeq(seed uint64, thorough bool) {
 	r := newRng(seed)
 	rot := &regRotor{r: r}
@@ -523,61 +584,56 @@ func streamRegSeq(seed uint64, thorough bool) {
 		n = 80000
 	}
 	for i := 0; i < n; i++ {
-		count := 1 + r.intn(12)
-		if r.intn(6) == 0 {
-			count = 1 + r.intn(125)
-		}
-		start := 0
-		switch r.intn(4) {
-		case 0:
-			start = r.intn(3)
-		case 1:
-			start = 65536 - count - r.intn(3)
-		default:
-			start = r.intn(65536 - count + 1)
-		}
-		vis := regPayload(r, count)
-		spare, _ := regJunk(r)
-		if r.intn(3) == 0 {
-			spare = nil
-		}
-		dflt := rot.dflt()
-		ncalls := 1 + r.intn(30)
-		calls := make([]regCall, ncalls)
-		for k := range calls {
-			addr := start + r.intn(count) // mostly inside: reads that overlap and repeat
-			switch r.intn(10) {
-			case 0:
-				addr = start - 1 - r.intn(3)
-			case 1:
-				addr = start + count - 1 + r.intn(4)
-			}
-			if addr < 0 {
-				addr = 0
-			}
-			if addr > 65535 {
-				addr = 65535
-			}
-			c := rot.next(uint16(addr))
-			if (c.code == 19 || c.code == 20) && r.intn(4) != 0 {
-				// strings that fit, so that the byte swapping path is taken
-				room := 2 * (start + count - addr)
-				if room > 0 {
-					c.p1 = 1 + r.intn(room)
-					if c.p1 > 255 {
-						c.p1 = 255
-					}
-				}
-				if c.code == 20 && r.bool() {
-					c.p2 = 1 + 2*r.intn(8) // some order with BigEndian set
-				}
-			}
-			if k > 0 && r.intn(5) == 0 {
-				c = calls[r.intn(k)] // repeat an earlier call
-			}
-			calls[k] = c
-		}
+		vis, spare, start, dflt, calls := genRegSeqCase(r, rot)
 		emit("reg_seq", regSeqArgs(vis, spare, start, dflt, calls), regSeqRun(vis, spare, uint16(start), dflt, calls))
+	}
+}
+
+// streamRegPar: the same kind of call sequences, but 16 of them at a time run concurrently in
+// goroutines, each on its own Registers object: decoding must not share hidden state between
+// objects (a pooled scratch buffer, a package-level cache).  Outcomes are emitted in generation
+// order, so the comparison with the model is unchanged.
+func streamRegPar(seed uint64, thorough bool) {
+	r := newRng(seed + 77)
+	rot := &regRotor{r: r}
+	n := 4000
+	if thorough {
+		n = 40000
+	}
+	const width = 16
+	for i := 0; i < n; i += width {
+		type cs struct {
+			args V
+			run  func() V
+			out  V
+		}
+		batch := make([]*cs, width)
+		for k := range batch {
+			vis, spare, start, dflt, calls := genRegSeqCase(r, rot)
+			// favour the word-reordering paths: a low-word-first default order half of the time
+			if k%2 == 0 {
+				dflt = []int{5, 6}[k/2%2]
+			}
+			v, sp, st, df, cl := vis, spare, start, dflt, calls
+			batch[k] = &cs{args: regSeqArgs(v, sp, st, df, cl), run: func() V { return regSeqRun(v, sp, uint16(st), df, cl) }}
+		}
+		var wg sync.WaitGroup
+		gate := make(chan struct{})
+		for _, c := range batch {
+			wg.Add(1)
+			go func(c *cs) {
+				defer wg.Done()
+				<-gate
+				for rep := 0; rep < 3; rep++ { // repeat: more overlap between the goroutines
+					c.out = guard(c.run)
+				}
+			}(c)
+		}
+		close(gate)
+		wg.Wait()
+		for _, c := range batch {
+			emit("reg_seq", c.args, c.out)
+		}
 	}
 }
 
